@@ -155,6 +155,11 @@ def make(spec):
     indep = {p: static_value(p, vols, spec.get("static", "cubicfit"), vols) for p in PAIRS21}
     full = system_tensor(system, indep)
     table = {p: full[p] for p in supplied}
+    if spec.get("zero_entry"):
+        # a small mixed constant that crosses zero and is tabulated as exactly 0.00 at ONE volume (the column does not vanish)
+        zp, zrow = tuple(spec["zero_entry"][0]), spec["zero_entry"][1]
+        if zp in table:
+            table[zp] = numpy.array(table[zp], float) * 0 + 0.7 * (numpy.arange(len(vols)) - zrow)
     lattice = None
     if spec.get("lattice", "none") == "power":
         kap = (0.30, 0.36, 0.34)
